@@ -385,9 +385,59 @@ def r8_grid_values(ctx) -> None:
               'exp(log(bound)) is not always the bound, so end points of LOG / REVERSE_LOG axes land an ulp outside [lo, hi]',
               construct=f'grid:{trans}', func=fi.qualname)
     elif from_cfg:
-      ctx.ok('R8', inst, r, 'enumerates bounds / range(bounds) / feasible_values exactly')
+      bad_model = _grid_enumeration_model(fi, g, rd, r)
+      ctx.check(bad_model is None, 'R8', inst, r, 'enumerates bounds / range(bounds) / feasible_values exactly (finite model)',
+                f'the grid values are not the values of the configuration: {bad_model}: grid suggestions leave the domain '
+                '(or values of the domain are never suggested)', construct='grid:enumeration', func=fi.qualname)
     else:
       raise AnalysisError(f'grid values at line {r.lineno}: provenance {sorted(calls)} / {sorted(attrs)} not recognised')
+
+
+def _grid_enumeration_model(fi: FuncInfo, g, rd, r: ast.Return) -> Optional[str]:
+  """Evaluates a returned `[ParameterValue(value=v) for v in ITER]` / `[ParameterValue(value=x)]` on small concrete
+  configurations; returns a description of the first model on which the values are not exactly the integers of the
+  bounds / the feasible values / a bound, or None."""
+  from vzstatic import pathcond
+  cfgp = [p for p in fi.params if p != 'self'][0]
+  node = g.node_of(r)
+  pths = pathcond.paths(g, [g.entry], node)
+  if not pths:
+    raise AnalysisError(f'grid values at line {r.lineno}: no path from the entry')
+  expr = pathcond.substitute_on_path(pths[0], r.value)
+
+  def strip(e):
+    # ParameterValue(value=X) / ParameterValue(X) -> X
+    class S(ast.NodeTransformer):
+      def visit_Call(self, c):
+        self.generic_visit(c)
+        if (dotted(c.func) or '').endswith('ParameterValue'):
+          kw = {k.arg: k.value for k in c.keywords}
+          return kw.get('value', c.args[0] if c.args else c)
+        return c
+    import copy
+    return S().visit(copy.deepcopy(e))
+  expr = strip(expr)
+  uses_feasible = any(isinstance(x, ast.Attribute) and x.attr == 'feasible_values' for x in ast.walk(expr))
+  models = [((0, 0), [0.5]), ((0, 3), [1.5, 2.5, 7.0]), ((-2, 2), ['a', 'b'])]
+  for (lo, hi), fv in models:
+    env = {f'{cfgp}.bounds': (lo, hi), f'{cfgp}.feasible_values': list(fv), f'{cfgp}.bounds[0]': lo, f'{cfgp}.bounds[1]': hi}
+    try:
+      got = pathcond.neval(expr, env)
+    except pathcond.NoValue as e:
+      raise AnalysisError(f'grid values at line {r.lineno}: `{unparse(expr, 80)}` cannot be evaluated on the finite model ({e})')
+    got = list(got) if isinstance(got, (list, tuple)) else [got]
+    if uses_feasible:
+      want = list(fv)
+      if got != want:
+        return f'with feasible_values={fv} the grid is {got}'
+    elif len(got) == 1 and isinstance(r.value, ast.List):
+      if not (lo <= got[0] <= hi):
+        return f'with bounds=({lo}, {hi}) the single grid value is {got[0]}'
+    else:
+      want = list(range(lo, hi + 1))
+      if got != want:
+        return f'with bounds=({lo}, {hi}) the grid is {got}, expected {want}'
+  return None
 
 
 # ----------------------------------------------------------------------- R6
